@@ -1,16 +1,20 @@
 (* C04 — property theorems. Statements only, each closed by `exact <lemma>`, Print Assumptions beneath,
    then the non-vacuity examples and the refutations of the unrepaired code (…_v0). *)
 From Coq Require Import Lia ZifyN ZifyNat.
-From C04 Require Import Model CaseDefs ProofsBase ProofsChunk ProofsSealed ProofsFetch ProofsMain ProofsSpec.
+From C04 Require Import Model CaseDefs ProofsBase ProofsChunk ProofsSealed ProofsFetch ProofsPos ProofsPhys ProofsMain ProofsSpec.
 Open Scope N_scope.
 
 (* thm:C04_fetch_exact — for every configuration (IDs per block >= 1, initial chunk >= 1), every corpus split
-   over sealed and active fractions (per fraction: distinct 64-bit IDs; fraction names distinct; an ID stored in
+   over sealed and active fractions (per fraction: distinct 64-bit IDs, ANY block layout of its docs file with
+   decoded blocks of at most 2^30 bytes and at most 2^32 blocks; fraction names distinct; an ID stored in
    at most one fraction; pruning by time range / occupancy map sound for request ranges up to B) and every
    request of distinct 64-bit IDs with timestamps <= B — any order, present and absent in any proportion,
    hints right, wrong, unknown or missing — the stream ends without error, crash or fuel exhaustion and
    carries, position by position, the requested ID and exactly the document stored under it in a fraction the
-   hint admits, or nothing. The entry of an ID depends on nothing but that ID and its hint. *)
+   hint admits, or nothing. The entry of an ID depends on nothing but that ID and its hint.
+   "The document stored under it" is obtained through the position layer as the code does: GetDocPos (sealed:
+   findLIDs + getDocPosByLIDs over the position blocks; active: DocsPositions with the snapshot guard),
+   GroupDocsOffsets, the block offsets table, ReadDocs by in-block offset, scatter by request index. *)
 Theorem C04_fetch_exact : forall B g frs ids, cfg_ok g -> corpus_wf B frs -> req_ok B ids ->
   stream g frs ids = SOk (map (fun s => (fst s, expected frs s)) ids).
 Proof. exact stream_exact. Qed.
@@ -56,13 +60,86 @@ Theorem C04_lessorequal_shortcuts : forall g f lid x,
 Proof. exact less_or_equal_spec. Qed.
 Print Assumptions C04_lessorequal_shortcuts.
 
-(* one fraction, sealed (binary search with moving left bound + bound check) or active: ANY list of IDs —
+(* one fraction, sealed (binary search with moving left bound + bound check, position blocks) or active
+   (position map, snapshot guard), then IndexFetch over its docs file in any block layout: ANY list of IDs —
    unsorted, repeated, below/above/between everything stored — is answered entry by entry with what the
    fraction stores, never with a panic *)
 Theorem C04_fraction_lookup : forall B g f ids, 1 <= ipb g -> frac_wf B f -> Forall id_u64 ids ->
   frac_fetch g (compile f) ids = Ok (map (lookup f) ids).
 Proof. exact frac_fetch_ok. Qed.
 Print Assumptions C04_fraction_lookup.
+
+(* ---- the position layer ---- *)
+(* DocPos round trip: for every block index that fits uint32 and every offset that fits 30 bits PackDocPos
+   does not panic, Unpack returns the pair, and the position is neither 0 nor DocPosNotFound; a larger offset
+   panics (in the writer, never in the fetch path) *)
+Theorem C04_docpos_roundtrip : forall b off, b < two32 -> off <= max_doc_offset ->
+  pack_pos b off = Ok (raw_pos b off) /\ unpack_pos (raw_pos b off) = (b, off) /\
+  raw_pos b off <> pos_not_found /\ raw_pos b off <> 0.
+Proof. exact pack_unpack. Qed.
+Print Assumptions C04_docpos_roundtrip.
+
+(* GroupDocsOffsets: blocks are distinct; offsets and request indices run in parallel; every found position
+   of the request appears in the group of its block with its offset and its request index; every (offset,
+   index) of a group stems from such a position; no request index appears twice *)
+Theorem C04_grouping_preserves : forall ps,
+  let gs := group_offsets ps in
+  NoDup (map (fun g : N * list N * list N => fst (fst g)) gs) /\
+  (forall b offs idx, In (b, offs, idx) gs -> length offs = length idx) /\
+  (forall i p, nth_error ps i = Some p -> p <> pos_not_found ->
+     exists offs idx j, In (fst (unpack_pos p), offs, idx) gs /\
+                        nth_error offs j = Some (snd (unpack_pos p)) /\ nth_error idx j = Some (N.of_nat i)) /\
+  (forall b offs idx j o i, In (b, offs, idx) gs -> nth_error offs j = Some o -> nth_error idx j = Some i ->
+     exists p, nth_error ps (N.to_nat i) = Some p /\ p <> pos_not_found /\ unpack_pos p = (b, o)) /\
+  NoDup (flat_map (fun g : N * list N * list N => snd g) gs).
+Proof. exact group_offsets_spec. Qed.
+Print Assumptions C04_grouping_preserves.
+
+(* extraction by in-block offset and 4-byte little-endian length prefix returns exactly the bytes written for
+   that document, for every block layout (any number of documents of any length < 2^32, also empty ones) *)
+Theorem C04_extract_written : forall docs k d, Forall bytes_ok docs -> nth_error docs k = Some d ->
+  extract_doc (encode_block docs) (start_offset docs k) = Ok d.
+Proof. exact extract_written. Qed.
+Print Assumptions C04_extract_written.
+
+(* the end-to-end model reads document descriptors by offset; on the bytes of ANY documents of the described
+   lengths the byte-level reader returns exactly their bytes *)
+Theorem C04_read_refines : forall bytes_of (file : list (N * list (id * body))) bo offs ds,
+  (forall fo blk e, In (fo, blk) file -> In e blk ->
+     bytes_ok (bytes_of (snd e)) /\ N.of_nat (length (bytes_of (snd e))) = snd (snd e)) ->
+  read_abs (map (fun fb => (fst fb, cells_from 0 (snd fb))) file) bo offs = Ok ds ->
+  read_bytes (map (fun fb => (fst fb, encode_block (map (fun e => bytes_of (snd e)) (snd fb)))) file) bo offs
+  = Ok (map bytes_of ds).
+Proof. exact read_refines. Qed.
+Print Assumptions C04_read_refines.
+
+(* activeFetchIndex.GetDocPos with a snapshot of k block offsets: a position whose block index is >= k (the
+   document was written after the snapshot) is "not found" for that ID only; every other position is returned
+   unchanged; an unknown ID is not found *)
+Theorem C04_active_snapshot_guard : forall k apos x,
+  active_pos k apos x =
+  match PositiveMap.find (key x) apos with
+  | None => pos_not_found
+  | Some p => if (p =? pos_not_found) || (k <=? fst (unpack_pos p)) then pos_not_found else p
+  end.
+Proof. exact active_pos_spec. Qed.
+Print Assumptions C04_active_snapshot_guard.
+
+Theorem C04_active_snapshot_guard_packed : forall k apos x b off, b < two32 -> off <= max_doc_offset ->
+  PositiveMap.find (key x) apos = Some (raw_pos b off) ->
+  active_pos k apos x = if k <=? b then pos_not_found else raw_pos b off.
+Proof. exact active_pos_packed. Qed.
+Print Assumptions C04_active_snapshot_guard_packed.
+
+(* getDocPosByLIDs over position blocks of ipb entries: LID 0 is not found, every other LID of the table gets
+   the position stored for it, whatever block was used before; no panic *)
+Theorem C04_sealed_positions : forall g ptab lids prev, 1 <= ipb g ->
+  Forall (fun l => l < N.of_nat (length ptab)) lids ->
+  (forall pi ps, prev = Some (pi, ps) -> ps = pi * ipb g) ->
+  pos_by_lids g (build_ptab ptab 0 (PositiveMap.empty _)) (N.of_nat (length ptab)) prev lids =
+  Ok (map (fun l => if l =? 0 then pos_not_found else nth (N.to_nat l) ptab 0) lids).
+Proof. exact pos_by_lids_ok. Qed.
+Print Assumptions C04_sealed_positions.
 
 (* link to the correspondence run: the executable specification checker that every run evaluates on the
    IMPLEMENTATION's output (CaseDefs.case_spec_ok: independent corpus lookup, IDs echoed, batch lengths >= 1
@@ -79,8 +156,8 @@ Print Assumptions C04_calc_meets_spec.
 
 (* ------------------------------------------------------------------ non-vacuity *)
 Definition ex_g := mkCfg 2 4194304 1000.
-Definition ex_f1 := mkFrac 1 true 100 200 None [((100,5),(1,10)); ((150,7),(2,20)); ((200,1),(3,1)); ((150,9),(4,3)); ((120,3),(5,7))].
-Definition ex_f2 := mkFrac 2 false 150 300 None [((150,8),(6,10)); ((300,7),(7,20))].
+Definition ex_f1 := mkFrac 1 true 100 200 None [((100,5),(1,10)); ((150,7),(2,20)); ((200,1),(3,1)); ((150,9),(4,3)); ((120,3),(5,7))] [2; 2]%nat.
+Definition ex_f2 := mkFrac 2 false 150 300 None [((150,8),(6,10)); ((300,7),(7,20))] [1]%nat.
 Definition ex_ids : list idsrc :=
   [((150,7),0); ((100,1),0); ((150,8),2); ((300,7),1); ((100,5),1); ((99,5),0); ((120,3),9); ((301,0),0)].
 
@@ -90,21 +167,25 @@ Ltac in_cases H := repeat (destruct H as [H|H]; [inversion H; subst; clear H|]);
 
 Lemma ex_f1_wf : frac_wf max64 ex_f1.
 Proof.
-  split; [split|split].
+  split; [split|split; [|split]].
   - simpl. nodup.
   - all64.
   - simpl; lia.
   - apply info_sound_nodist; [reflexivity|]. intros x b H. apply lookup_docs_in in H. simpl in H.
     in_cases H; simpl; lia.
+  - split; [|vm_compute; discriminate].
+    repeat (apply Forall_cons; [vm_compute; discriminate|]); apply Forall_nil.
 Qed.
 Lemma ex_f2_wf : frac_wf max64 ex_f2.
 Proof.
-  split; [split|split].
+  split; [split|split; [|split]].
   - simpl. nodup.
   - all64.
   - simpl; lia.
   - apply info_sound_nodist; [reflexivity|]. intros x b H. apply lookup_docs_in in H. simpl in H.
     in_cases H; simpl; lia.
+  - split; [|vm_compute; discriminate].
+    repeat (apply Forall_cons; [vm_compute; discriminate|]); apply Forall_nil.
 Qed.
 Lemma ex_corpus_wf : corpus_wf max64 [ex_f1; ex_f2].
 Proof.
@@ -204,6 +285,13 @@ Proof.
   - split; vm_compute; reflexivity.
 Qed.
 
+(* the active provider before 5d51c58: a document whose block lies past the snapshot kept its position and the
+   block offsets table was indexed out of range (panic, the whole batch failed) *)
+Example C04_active_guard_v0_refuted : exists k apos x,
+  active_pos_v0 k apos x <> pos_not_found /\ k <= fst (unpack_pos (active_pos_v0 k apos x)) /\
+  active_pos k apos x = pos_not_found.
+Proof. exact active_pos_v0_refuted. Qed.
+
 Example C04_find_lids_v0_refuted : exists g f x, f_sealed f = true /\ docs_wf (f_docs f) /\ lookup f x = None /\
   find_lids_v0 g (compile f) None 1 [x] = Panic /\ find_lids g (compile f) None 1 [x] = Ok [0].
 Proof. exact find_lids_v0_refuted. Qed.
@@ -215,7 +303,7 @@ Proof. exact find_lids_v0_refuted. Qed.
    and the OTHER, stored IDs of the request came back empty: pruning was unsound for request ranges reaching
    2^63. The repaired index function keeps the fraction and the document is delivered. *)
 Definition ex_fd := mkFrac 1 true 1000000 1090000
-  (Some (mkDist 1000000 1700000 60000 [6; 0])) [((1000000,5),(1,10)); ((1090000,7),(2,20))].
+  (Some (mkDist 1000000 1700000 60000 [6; 0])) [((1000000,5),(1,10)); ((1090000,7),(2,20))] [].
 Example C04_pruning_v0_refuted :
   lookup ex_fd (1000000,5) = Some (1,10) /\
   intersecting_v0 ex_fd 1000000 two63 = false /\
